@@ -114,14 +114,7 @@ impl CardIndex {
 
     pub fn as_handle(&self) -> crate::prelude::Handle {
         let function_handle = crate::prelude::Handle::from_u64(self.function as u64);
-        let subindices = self.card_index.indices.as_slice();
-        let sub_handle = unsafe {
-            crate::prelude::Handle::from_bytes(std::slice::from_raw_parts(
-                subindices.as_ptr().cast(),
-                subindices.len() * 4,
-            ))
-        };
-        function_handle + sub_handle
+        function_handle + self.card_index.as_handle()
     }
 
     /// pushes a new sub-index to the bottom layer
@@ -217,6 +210,17 @@ impl FunctionCardIndex {
     pub fn begin(&self) -> Result<usize, CardFetchError> {
         let i = self.indices.first().ok_or(CardFetchError::InvalidIndex)?;
         Ok(*i as usize)
+    }
+
+    /// Hash of the path inside the function
+    pub fn as_handle(&self) -> crate::prelude::Handle {
+        let subindices = self.indices.as_slice();
+        unsafe {
+            crate::prelude::Handle::from_bytes(std::slice::from_raw_parts(
+                subindices.as_ptr().cast(),
+                subindices.len() * 4,
+            ))
+        }
     }
 }
 
